@@ -7,3 +7,10 @@ pub open spec fn sp_accept<const N: usize>(p: SignatureProof<N>, pk: PublicKey<N
     &&& ps_pairing_ok(p.blinded_signature.0.sigma1, p.blinded_signature.0.sigma2,
             g_add(pk.x2, p.commitment_proof.commitment.0), pk.g2)
 }
+
+/// the blinded signature of a signature-proof builder is `sig` blinded with the commitment's blinding factor and
+/// re-randomised with r
+pub open spec fn spb_blinded_from<const N: usize>(b: SignatureProofBuilder<N>, sig: Signature, r: Scalar) -> bool {
+    &&& b.blinded_signature.0.sigma1 == g_mul(sig.sigma1, r)
+    &&& b.blinded_signature.0.sigma2 == g_mul(g_add(sig.sigma2, g_mul(sig.sigma1, b.commitment_proof_builder.message_blinding_factor.0)), r)
+}
